@@ -3,7 +3,7 @@ from ..rules import failure, holds, flow, folds
 from .common import declare
 
 RULES = ['NO-SWALLOWING-GATHER', 'ACC-CONTRACT', 'RERAISE', 'STATE-AFTER-CALL', 'STATE-FROM-RESULT', 'NO-REL-ON-FAIL', 'SYNC-TRANSPORT', 'EMIT-CONVERT']
-FLOORS = {'RERAISE': 5, 'STATE-AFTER-CALL': 5, 'STATE-FROM-RESULT': 1, 'NO-REL-ON-FAIL': 1, 'SYNC-TRANSPORT': 3, 'EMIT-CONVERT': 3}
+FLOORS = {'RERAISE': 2, 'STATE-AFTER-CALL': 5, 'STATE-FROM-RESULT': 1, 'NO-REL-ON-FAIL': 1, 'SYNC-TRANSPORT': 3, 'EMIT-CONVERT': 3}
 
 META = {
     'level': "Static analysis of the synchronous delivery chain (_emit, emit, every plain update of core/sinks): no handler path "
